@@ -26,6 +26,7 @@ Original line numbers are kept on the rewritten nodes.  Nothing here changes wha
 from __future__ import annotations
 
 import ast
+import copy
 
 _INV = {ast.Eq: ast.NotEq, ast.NotEq: ast.Eq, ast.Is: ast.IsNot, ast.IsNot: ast.Is, ast.In: ast.NotIn, ast.NotIn: ast.In}
 
@@ -451,7 +452,76 @@ class Normalizer(ast.NodeTransformer):
         return node
 
 
+class _MatchLower(ast.NodeTransformer):
+    """`match` statements over class / value / wildcard / fixed-length sequence patterns become the if/elif chain they abbreviate
+    (`case C():` is `isinstance(subject, C)`, tried in order); any other pattern kind leaves the statement alone (the rules then see a
+    statement they do not model and fail closed)."""
+
+    counter = 0
+
+    def _pattern(self, p, subj):
+        """(test expression or None for 'always', [binding statements]) or None if the pattern kind is not handled"""
+        if isinstance(p, ast.MatchClass) and not p.patterns and not p.kwd_patterns:
+            return ast.Call(func=ast.Name(id="isinstance", ctx=ast.Load()), args=[copy.deepcopy(subj), p.cls], keywords=[]), []
+        if isinstance(p, ast.MatchOr):
+            subs = [self._pattern(x, subj) for x in p.patterns]
+            if any(x is None or x[1] or x[0] is None for x in subs):
+                return None
+            if all(isinstance(x, ast.MatchClass) for x in p.patterns):
+                return ast.Call(func=ast.Name(id="isinstance", ctx=ast.Load()), args=[copy.deepcopy(subj), ast.Tuple(elts=[x.cls for x in p.patterns], ctx=ast.Load())], keywords=[]), []
+            return ast.BoolOp(op=ast.Or(), values=[x[0] for x in subs]), []
+        if isinstance(p, ast.MatchAs) and p.pattern is None:
+            if p.name is None:
+                return None if False else (None, [])
+            return None, [ast.Assign(targets=[ast.Name(id=p.name, ctx=ast.Store())], value=copy.deepcopy(subj), lineno=getattr(p, "lineno", 0))]
+        if isinstance(p, ast.MatchValue):
+            return ast.Compare(left=copy.deepcopy(subj), ops=[ast.Eq()], comparators=[p.value]), []
+        if isinstance(p, ast.MatchSingleton):
+            return ast.Compare(left=copy.deepcopy(subj), ops=[ast.Is()], comparators=[ast.Constant(value=p.value)]), []
+        if isinstance(p, ast.MatchSequence) and all(isinstance(x, ast.MatchAs) and x.pattern is None for x in p.patterns):
+            n = len(p.patterns)
+            test = ast.Compare(left=ast.Call(func=ast.Name(id="len", ctx=ast.Load()), args=[copy.deepcopy(subj)], keywords=[]), ops=[ast.Eq()], comparators=[ast.Constant(value=n)])
+            binds = [ast.Assign(targets=[ast.Name(id=x.name, ctx=ast.Store())], value=ast.Subscript(value=copy.deepcopy(subj), slice=ast.Constant(value=i), ctx=ast.Load()), lineno=getattr(p, "lineno", 0)) for i, x in enumerate(p.patterns) if x.name]
+            return test, binds
+        return None
+
+    def visit_Match(self, node):
+        self.generic_visit(node)
+        subj = node.subject
+        pre = []
+        simple = lambda e: isinstance(e, ast.Name) or (isinstance(e, ast.Attribute) and simple(e.value)) or (isinstance(e, ast.Subscript) and simple(e.value) and isinstance(e.slice, (ast.Constant, ast.Name)))
+        if not simple(subj):
+            _MatchLower.counter += 1
+            nm = f"subject__m{_MatchLower.counter}"
+            pre = [ast.copy_location(ast.Assign(targets=[ast.Name(id=nm, ctx=ast.Store())], value=subj), node)]
+            subj = ast.Name(id=nm, ctx=ast.Load())
+        arms = []
+        for c in node.cases:
+            r = self._pattern(c.pattern, subj)
+            if r is None:
+                return node
+            test, binds = r
+            if binds and c.guard is not None:
+                return node  # the guard may read the bindings: not expressible as one test
+            if c.guard is not None:
+                test = c.guard if test is None else ast.BoolOp(op=ast.And(), values=[test, c.guard])
+            arms.append((test, binds + c.body))
+        chain = None
+        for test, body in reversed(arms):
+            if test is None:
+                chain = list(body)  # irrefutable: everything after it is unreachable
+            else:
+                chain = [ast.copy_location(ast.If(test=test, body=list(body), orelse=chain or []), node)]
+        out = pre + (chain or [])
+        for st in out:
+            ast.fix_missing_locations(st)
+        return out or ast.copy_location(ast.Pass(), node)
+
+
 def normalize(tree: ast.AST) -> ast.AST:
+    if any(isinstance(n, ast.Match) for n in ast.walk(tree)):
+        tree = _MatchLower().visit(tree)
+        ast.fix_missing_locations(tree)
     tree = Normalizer().visit(tree)
     ast.fix_missing_locations(tree)
     return tree
